@@ -18,7 +18,9 @@ def run(ctx, rep):
     table(ctx, rep)
     for impl in net.impls_present(ctx):
         loop_rules(ctx, rep, impl)
+        flag_writers(ctx, rep, impl)
     rep.floor("R9.2", 5 * len(net.impls_present(ctx)))
+    rep.floor("R9.3", 2 * len(net.impls_present(ctx)))
 
 
 def table(ctx, rep):
@@ -136,3 +138,38 @@ def loop_rules(ctx, rep, impl):
     bad = [(bb, s) for bb, s in err_exits if not (s and all(any(x.endswith(a) for a in allowed) for x in s))]
     rep.check("R9.2", "%s:no-other-rejection" % impl, not bad, "read has error exits that do not come from decode, the gate, the reply write or the transport read: %s" % bad, b.loc(),
               sample={"impl": impl, "error_exits": [s for _b, s in err_exits]})
+
+
+def flag_writers(ctx, rep, impl):
+    """R9.3 who-may-write: self.verify_version is set by the constructor (false) and by the setter (its argument) only;
+    a read that changes the flag makes the gate depend on the packet history"""
+    from mirq import strip_refs
+    prefix = net.IMPLS[impl]["framed"] + "::"
+    n = 0
+    for name in sorted(ctx.mir.bodies):
+        if not name.startswith(prefix):
+            continue
+        if impl == "tokio" and "{closure#0}" in name and not name.endswith("#promoted"):
+            continue
+        b = ctx.mir.body(name)
+        for bl in b.blocks:
+            for st in bl["stmts"]:
+                if st["k"] == "assign" and st["place"]["p"] and any(isinstance(p, dict) and p.get("name") == "verify_version" for p in st["place"]["p"]):
+                    n += 1
+                    src = b.origin(st["rv"]["x"]) if st["rv"]["k"] == "use" else ("rv", st["rv"]["k"])
+                    meth = name[len(prefix):].split("::")[0]
+                    ok = meth == "verify_version" and strip_refs(src) == ("arg", 2)
+                    rep.check("R9.3", "%s:%s:assign" % (impl, meth), ok,
+                              "%s assigns self.verify_version (from %s): only the `verify_version(bool)` setter may change the flag, otherwise the gate depends on what was received before" % (name, fmt_origin(src)),
+                              b.loc(st["line"]), sample={"function": name, "source": fmt_origin(src)})
+                if st["k"] == "assign" and st["rv"]["k"] == "agg" and st["rv"].get("adt") == net.IMPLS[impl]["framed"]:
+                    n += 1
+                    i = st["rv"]["fields"].index("verify_version")
+                    o = b.origin(st["rv"]["ops"][i])
+                    rep.check("R9.3", "%s:new:initial" % impl, name.endswith("::new") and o[0] == "const" and o[1] == 0, "a connection must start with verification off until configured (found %s in %s)" % (fmt_origin(o), name),
+                              b.loc(st["line"]), nontrivial=False)
+        # a &mut borrow of the flag handed to a call
+        for bb, t in b.calls():
+            for a, ty in zip(t["args"], t.get("argtys") or []):
+                if ty.startswith("&mut") and is_self_field(b.origin(a), "verify_version"):
+                    rep.fail("R9.3", "%s:%s:borrowed" % (impl, name[len(prefix):]), "self.verify_version is lent mutably to %s" % callee(t)[0], b.loc(t["line"]))
